@@ -701,6 +701,8 @@ where
             let removed_fabric = state.failsafe.check_failsafe_timeout(
                 &mut state.fabrics,
                 &mut state.sessions,
+                #[cfg(feature = "case-resumption")]
+                &mut state.resumption,
                 &self.state.networks,
                 &self.kv,
                 expire_sess_id,
